@@ -5,6 +5,7 @@ package main
 
 import (
 	"bytes"
+	"context"
 	"encoding/json"
 	"fmt"
 	"os"
@@ -450,13 +451,14 @@ type semCfg struct {
 	Again     int  // additional encode + decode rounds
 	Twice     bool // run twice on the same VM, observe the second run
 	VM2       bool // run on one VM, then observe a run of a second VM on the same Bytecode
+	Sess      bool // the program is a fragment of an Eval session whose earlier fragments referred to every disabled builtin (and were refused)
 }
 
 func semConfigs(names []string) []semCfg {
 	var out []semCfg
 	for _, full := range names {
 		n := full
-		rt, twice, vm2 := false, false, false
+		rt, twice, vm2, sess := false, false, false, false
 		again := 0
 		for strings.Contains(n, "+") {
 			i := strings.LastIndex(n, "+")
@@ -470,6 +472,8 @@ func semConfigs(names []string) []semCfg {
 				twice = true
 			case "vm2":
 				vm2 = true
+			case "sess":
+				sess = true
 			}
 			n = n[:i]
 		}
@@ -486,7 +490,7 @@ func semConfigs(names []string) []semCfg {
 		}
 		for ; k < len(out); k++ {
 			out[k].Name, out[k].RoundTrip, out[k].Twice, out[k].Again = full, rt, twice, again
-			out[k].VM2 = vm2
+			out[k].VM2, out[k].Sess = vm2, sess
 		}
 	}
 	return out
@@ -541,6 +545,9 @@ func semRun(p semProg, cf semCfg, src string) (obs string, compileErr error, pan
 		st.DisableBuiltin(ds...)
 		opts.SymbolTable = st
 	}
+	if cf.Sess {
+		return semSession(p, opts, src)
+	}
 	bc, err := ugo.Compile([]byte(src), opts)
 	if err != nil {
 		return "", err, nil
@@ -585,6 +592,60 @@ func semRun(p semProg, cf semCfg, src string) (obs string, compileErr error, pan
 		// another VM on the same Bytecode: nothing the first run did is visible to it
 		g = mkGlobals()
 		ret, rerr = ugo.NewVM(bc).Run(g, args...)
+	}
+	var o []any
+	if rerr != nil {
+		if re, ok := rerr.(*ugo.RuntimeError); ok {
+			o = []any{"thr", semObj(re)}
+		} else {
+			o = []any{"goerr", rerr.Error()}
+		}
+	} else {
+		o = []any{"ret", semObj(ret)}
+	}
+	logv := semObj(g["log"]).(N)["v"]
+	gl := N{}
+	for k, v := range g {
+		if k != "log" && !strings.HasPrefix(k, "cb") {
+			gl[k] = semObj(v)
+		}
+	}
+	return canonS([]any{o, logv, gl}), nil, nil
+}
+
+// semSession runs the program as a fragment of an Eval session.  Earlier fragments referred to every
+// disabled builtin - in the main scope and inside a function - and must have been refused, twice each:
+// a refusal leaves nothing behind that lets a later reference through.
+func semSession(p semProg, opts ugo.CompilerOptions, src string) (obs string, compileErr error, panicked any) {
+	g := ugo.Map{"log": ugo.Array{}}
+	if m, ok := p.Globals.(map[string]any); ok {
+		for k, v := range m {
+			g[k] = semValueObj(v.(N))
+		}
+	}
+	var args []ugo.Object
+	for _, a := range p.Args {
+		args = append(args, semValueObj(a.(N)))
+	}
+	if opts.SymbolTable == nil {
+		opts.SymbolTable = ugo.NewSymbolTable()
+	}
+	ev := ugo.NewEval(opts, g, args...)
+	for round := 0; round < 2; round++ {
+		for _, d := range p.Disabled {
+			for _, frag := range []string{"zq := " + d.(string), "zf := func() { return " + d.(string) + " }"} {
+				if _, bc, _ := ev.Run(context.Background(), []byte(frag)); bc != nil {
+					return fmt.Sprintf("SESSION: fragment %q compiled although %s is disabled (round %d)", frag, d, round+1), nil, nil
+				}
+			}
+		}
+	}
+	ret, bc, rerr := ev.Run(context.Background(), []byte(src))
+	if bc == nil {
+		return "", rerr, nil
+	}
+	if ref := builtinRefs(bc, p.Disabled); ref != "" {
+		return "BUILTINREF: " + ref, nil, nil
 	}
 	var o []any
 	if rerr != nil {
